@@ -369,7 +369,7 @@ impl Workload for Navigation {
 pub fn run(ctx: &Ctx) -> i32 {
     let mut acc = Acc::new(ctx);
     let wl = Navigation {
-        n: if ctx.quick() { 160 } else { 1500 },
+        n: if ctx.quick() { 320 } else { 10_000 },
         stride: 1,
     };
     acc.pool(&wl, "c17", true);
